@@ -522,6 +522,33 @@ func c01Mutate(r *vf.Rand, v, w c01Valid) c01Case {
 			data = c01Join3(segs[0], segs[1], segs[2])
 			tag += fmt.Sprintf("-seg%d", i)
 		}
+	case choice == 4 && compact && r.Intn(4) == 0 && len(v.Spec.Signers) == 1 && v.Spec.Signers[0].Alg != "none":
+		// the KEY HOLDER signs a header whose string values carry leading / trailing white space ("HS256\n", " k0"):
+		// the signature is genuine, so only exact reading of the signed strings decides — "HS256\n" is not a registered
+		// algorithm (refused), a kid / typ with white space is returned as signed
+		h, p, _, ok := c01Split3(data)
+		if ok {
+			if hb, err := c01b64.DecodeString(string(h)); err == nil {
+				if m, ok := DecodeJSONMap(hb); ok && m != nil {
+					deco := func(x string) string {
+						return []string{x + "\n", " " + x, x + " ", "\t" + x, x + "\r\n"}[r.Intn(5)]
+					}
+					name := []string{"alg", "alg", "kid", "typ"}[r.Intn(4)]
+					if cur, ok := m[name].(string); ok {
+						m[name] = deco(cur)
+					} else if name != "alg" {
+						m[name] = deco("v")
+					}
+					nb, _ := json.Marshal(m)
+					h2 := c01b64.EncodeToString(nb)
+					sg0 := v.Spec.Signers[0]
+					if sg, err := c01StdSign(sg0.Alg, c01KeyByIdx(sg0.Key.Idx), []byte(h2+"."+string(p)), r); err == nil {
+						data = c01Join3([]byte(h2), p, []byte(c01b64.EncodeToString(sg)))
+						tag = "resigned-ws-" + name
+					}
+				}
+			}
+		}
 	case choice == 4 && compact: // header edit, signature kept
 		h, p, s, ok := c01Split3(data)
 		if ok {
